@@ -29,6 +29,14 @@ def fill (m : Mem) (a : BitVec 64) (v : BitVec 8) (n : Nat) : Mem := fun x => if
 def copy (m : Mem) (dst src : BitVec 64) (n : Nat) : Mem :=
   fun x => if (x - dst).toNat < n then m (src + (x - dst)) else m x
 
+/-- pointwise reading of a conditional memory (used to hand memory obligations to `bv_decide` address by address) -/
+theorem ite_app (c : Prop) [Decidable c] (m1 m2 : Mem) (a : BitVec 64) : (if c then m1 else m2) a = if c then m1 a else m2 a := by
+  split <;> rfl
+theorem store_app (m : Mem) (x a : BitVec 64) (v : BitVec 8) : store m x v a = if a = x then v else m a := rfl
+theorem fill_app (m : Mem) (x a : BitVec 64) (v : BitVec 8) (n : Nat) : fill m x v n a = if (a - x).toNat < n then v else m a := rfl
+theorem copy_app (m : Mem) (dst src a : BitVec 64) (n : Nat) :
+    copy m dst src n a = if (a - dst).toNat < n then m (src + (a - dst)) else m a := rfl
+
 @[simp] theorem store_same (m : Mem) (a : BitVec 64) (v : BitVec 8) : store m a v a = v := by simp [store]
 theorem store_other (m : Mem) (a x : BitVec 64) (v : BitVec 8) (h : x ≠ a) : store m a v x = m x := by simp [store, h]
 
